@@ -1267,6 +1267,8 @@ class BlockGen:
         return [ast.Assign(targets=[tgt], value=val, lineno=0)]
 
     def augassign(self, sc):
+        """v op= expr, followed by a statement that keeps v small: the right-hand side may mention v itself, and inside
+        nested loops that is exponential growth"""
         x = self.x
         loc = [n_ for n_, t in sc.items() if t in ("int", "str", "list") and n_ not in self.deleted and n_ not in self.outer]
         if not loc:
@@ -1276,14 +1278,15 @@ class BlockGen:
         if t == "int":
             op = x.pick([ast.Add, ast.Sub, ast.Mult, ast.FloorDiv, ast.Pow, ast.BitOr])()
             val = _const(1 + x.n(3)) if isinstance(op, (ast.FloorDiv, ast.Pow)) else self.e("int", sc)
-            if isinstance(op, ast.Pow):
-                # keep the numbers small: v = v % 7 first
-                return [ast.AugAssign(target=_store(nm), op=ast.Mod(), value=_const(7)), ast.AugAssign(target=_store(nm), op=op, value=val)]
-        elif t == "str":
+            pre = [ast.AugAssign(target=_store(nm), op=ast.Mod(), value=_const(7))] if isinstance(op, ast.Pow) else []
+            return pre + [ast.AugAssign(target=_store(nm), op=op, value=val),
+                          ast.AugAssign(target=_store(nm), op=ast.Mod(), value=_const(1000003))]
+        if t == "str":
             op, val = ast.Add(), self.e("str", sc)
         else:
             op, val = ast.Add(), self.e("list", sc)
-        return [ast.AugAssign(target=_store(nm), op=op, value=val)]
+        return [ast.AugAssign(target=_store(nm), op=op, value=val),
+                _assign(nm, _sub(_load(nm), ast.Slice(lower=None, upper=_const(40), step=None)))]
 
     def expr_stmt(self, sc):
         x = self.x
@@ -1294,8 +1297,11 @@ class BlockGen:
                 call = _call(_attr(_load(nm), x.pick(["append", "append", "extend"])), [self.e("int", sc)])
                 if call.func.attr == "extend":
                     call.args = [self.e("list", sc)]
-            else:
-                call = _call(_attr(_load(nm), "update"), [], [_kw("k", self.e("int", sc))])
+                # keep the list short (the argument may be the list itself, inside nested loops)
+                return [ast.Expr(value=call),
+                        ast.Delete(targets=[ast.Subscript(value=_load(nm), slice=ast.Slice(lower=_const(40), upper=None, step=None),
+                                                          ctx=ast.Del())])]
+            call = _call(_attr(_load(nm), "update"), [], [_kw("k", self.e("int", sc))])
             return [ast.Expr(value=call)]
         return [ast.Expr(value=_call(x.helper("fid"), [self.e("int", sc)]))]
 
@@ -1383,6 +1389,7 @@ class BlockGen:
             it, add = _call("list", [_call(_attr(self.e("dict", sc), "items"), [])]), {a: "str", b: "int"}
         body, inner = self.body(sc, depth, True, fn, add)
         body.append(ast.AugAssign(target=_store(acc), op=ast.Add(), value=self.e("int", inner, 1)))
+        body.append(ast.AugAssign(target=_store(acc), op=ast.Mod(), value=_const(1000003)))
         orelse = self.body(sc, depth, False, fn)[0] if x.chance(25) else []
         return pre + [ast.For(target=target, iter=it, body=body, orelse=orelse, lineno=0)]
 
